@@ -898,10 +898,10 @@ func main() {
 		e.runDyn(dynCase{Op: "dyn", Field: name}, muts)
 	}
 	r := gen.NewRand(f.Seed)
-	for i := 0; i < f.N(40, 200); i++ {
+	for i := 0; i < f.N(25, 200); i++ {
 		e.runScenario(genScenario(r))
 	}
-	for i := 0; i < f.N(50, 250); i++ {
+	for i := 0; i < f.N(30, 250); i++ {
 		a := genOpts(r)
 		b := cloneOpts(a)
 		what := gen.Pick(r, []string{"Branches", "RawConfig", "URL", "CommitURLTemplate", "FileURLTemplate", "LineFragmentTemplate", "Metadata",
